@@ -11,6 +11,13 @@ use std::collections::{HashSet, VecDeque};
 
 use regex::{Regex, RegexSet};
 
+#[cfg(rash_verif)]
+thread_local! {
+    /// Verification hook: the expanded usages of the last `parse` call, in the order they are tried.
+    pub static VERIF_EXPANDED_USAGES: std::cell::RefCell<Vec<String>> =
+        const { std::cell::RefCell::new(Vec::new()) };
+}
+
 /// Parse file doc and args to return docopts variables.
 /// Supports help subcommand to print help and exit.
 pub fn parse(file: &str, args: &[&str]) -> Result<Value> {
@@ -48,6 +55,8 @@ pub fn parse(file: &str, args: &[&str]) -> Result<Value> {
             .into_iter()
             .collect();
     expanded_usages.sort_by(|a, b| b.cmp(a));
+    #[cfg(rash_verif)]
+    VERIF_EXPANDED_USAGES.with(|t| *t.borrow_mut() = expanded_usages.clone());
     trace!("expanded usages: {expanded_usages:?}");
 
     let arg_kind_set = RegexSet::new([
